@@ -124,6 +124,7 @@ def c07(tier):
     out = []
     for g in ("dn", "un", "dl", "ul", "dm", "um", "dw", "uw"):
         kw = dict(ops=mutators(g) + observers(g), forces=F, maxcopies=2, bad=True, reps=2,
+                  invariants=["TypeOK"], properties=["RejectNothing"],
                   trace=T(6 if tier == "quick" else 60, 150, 5))
         if g in ("dl", "ul"):
             kw.update(labels=(0, 1), trace=T(2 if tier == "quick" else 15, 150, 5), orphan=True)
@@ -136,7 +137,22 @@ def c07(tier):
     return out
 
 
-TABLE = {"C01": c01, "C02": c02, "C03": c03, "C04": c04, "C05": c05, "C16": c16, "C07": c07}
+def c06(tier):
+    P = machine.PairScenario
+    if tier == "quick":
+        return [P("dn2", "dn", 2), P("un3", "un", 3), P("dl2", "dl", 2, labels=(0, 1), reps=1),
+                P("ul2", "ul", 2, labels=(0, 1), reps=1), P("dm2", "dm", 2, mults=(0, 1, 2), maxmult=2, reps=1),
+                P("um2", "um", 2, mults=(0, 1, 2), maxmult=2), P("dw2", "dw", 2), P("uw2", "uw", 2)]
+    return [P("dn3", "dn", 3, walk=False, workers=16), P("dn2", "dn", 2, reps=4), P("un3", "un", 3, reps=4),
+            P("dl2", "dl", 2, labels=(0, 1, 2), reps=2), P("ul3", "ul", 3, labels=(0, 1), walk=False, workers=16),
+            P("ul2", "ul", 2, labels=(0, 1, 2), reps=3),
+            P("dm2", "dm", 2, mults=(0, 1, 2, 3), maxmult=3, reps=3), P("um2", "um", 2, mults=(0, 1, 2, 3), maxmult=3, reps=3),
+            P("um3", "um", 3, mults=(0, 1), maxmult=1, walk=False, workers=16),
+            P("dw2", "dw", 2, weights="WeightSet3", reps=3), P("uw2", "uw", 2, weights="WeightSet3", reps=3),
+            P("uw3", "uw", 3, weights="WeightSet2", walk=False, workers=16)]
+
+
+TABLE = {"C06": c06, "C01": c01, "C02": c02, "C03": c03, "C04": c04, "C05": c05, "C16": c16, "C07": c07}
 
 
 def run_scenarios(pid, scenarios, seed, gh_exe, extra_builds=()):
@@ -248,6 +264,8 @@ def coverage_of(results, scenarios):
     rejected = sum((r["mc"].get("walk") or {}).get("rejected_transitions", 0) for r in results)
     hist = sum(v.get("histories", 0) for r in results for v in r["traces"] if v.get("accepted"))
     events = sum(v.get("events", 0) for r in results for v in r["traces"] if v.get("accepted"))
+    eq_true = sum((r["mc"].get("walk") or {}).get("eq_true", 0) for r in results)
+    eq_false = sum((r["mc"].get("walk") or {}).get("eq_false", 0) for r in results)
     fams = sorted({f for r in results for f in (r["mc"].get("walk") or {}).get("families", [])})
     samples = []
     for r in results:
@@ -276,6 +294,8 @@ def coverage_of(results, scenarios):
         "rejected_call_transitions_executed": rejected,
         "classes_and_label_kinds": fams,
         "calls_exercised": ops,
+        "pair_transitions_with_equal_graphs": eq_true,
+        "pair_transitions_with_unequal_graphs": eq_false,
         "samples": samples or [{"note": "no walk in this run"}],
         "scenarios": per,
         "exhaustive": True,
